@@ -102,14 +102,16 @@ fn run(input: RunInput) -> ScenFuture {
         for k in 0..n_adv {
             let l = r.gen_range(0..2usize);
             let pool: Vec<String> = vec![names[l].0.clone(), names[l].1.clone().unwrap_or_else(|| "zz-none".into()), names[1 - l].0.clone(), pick_name(&mut r), "unknown-net".into()];
-            let sni = pool[r.gen_range(0..pool.len())].clone();
+            // (one attempt in six sends no server name at all)
+            let no_sni = r.gen_range(0..6) == 0;
+            let sni = if no_sni { "<none>".to_string() } else { pool[r.gen_range(0..pool.len())].clone() };
             let cert_name = pool[r.gen_range(0..pool.len())].clone();
             let adv = adv_endpoint(&w, AdvSpec {
                 idx: 9, port: 7200 + k as u16, chain: vec![gen_cert(&k_adv, &cert_name)], sign_key: k_adv, present_client_cert: true,
                 idle_ms: 6_000, keep_alive_ms: None, max_bidi: 10,
             });
-            let res = adv.dial(nodes[l].addr, &sni, 1_200).await;
-            let model = accepts(l, &sni) && accepts(l, &cert_name);
+            let res = if no_sni { adv.dial_no_sni(nodes[l].addr, 1_200).await } else { adv.dial(nodes[l].addr, &sni, 1_200).await };
+            let model = !no_sni && accepts(l, &sni) && accepts(l, &cert_name);
             let key = format!("sni_accepted={} cert_accepted={}", accepts(l, &sni), accepts(l, &cert_name));
             w.event(format!("adv {key}:{}", if res.is_ok() { "admitted" } else { "refused" }));
             samples.push(json!({"listener": names[l], "sni": sni, "cert_name": cert_name, "model_admits": model, "admitted": res.is_ok()}));
@@ -125,6 +127,7 @@ fn run(input: RunInput) -> ScenFuture {
             retired.push(adv);
             sleep_ms(50).await;
         }
+        let mut retired_l = Vec::new();
         // adversarial listener: which name does an honest dialer offer?
         let lst = adv_endpoint(&w, AdvSpec {
             idx: 8, port: 7000, chain: vec![gen_cert(&k_adv, &names[0].0)], sign_key: k_adv, present_client_cert: true,
@@ -151,10 +154,49 @@ fn run(input: RunInput) -> ScenFuture {
         if !lossy {
             w.check(seen.len() >= 2, "dialer-sent-no-sni", "listener", || format!("adversarial listener saw {} hellos", seen.len()));
         }
+        // adversarial listeners that answer with a certificate for a name of their choosing and play
+        // the acknowledgement: an honest dialer accepts only a certificate for the name it dialed,
+        // its primary name
+        for d in 0..2usize {
+            let pool: Vec<String> = vec![names[d].0.clone(), names[d].1.clone().unwrap_or_else(|| "zz-none".into()), names[1 - d].0.clone(), pick_name(&mut r)];
+            let cert_name = pool[r.gen_range(0..pool.len())].clone();
+            let l2 = adv_endpoint(&w, AdvSpec {
+                idx: 8, port: 7300 + d as u16, chain: vec![gen_cert(&k_adv, &cert_name)], sign_key: k_adv, present_client_cert: true,
+                idle_ms: 6_000, keep_alive_ms: None, max_bidi: 10,
+            });
+            let l2 = std::sync::Arc::new(l2);
+            let srv = {
+                let l2 = l2.clone();
+                tokio::spawn(async move {
+                    let mut keep = Vec::new();
+                    while let Ok(c) = l2.accept_and_ack().await {
+                        keep.push(c);
+                    }
+                })
+            };
+            let res = tokio::time::timeout(std::time::Duration::from_secs(5), nodes[d].net.connect(l2.addr)).await;
+            let connected = matches!(res, Ok(Ok(_)));
+            let model = cert_name == names[d].0;
+            let key = format!("dialer=({},{:?}) cert_is_primary={} cert_is_alternate={}", names[d].0, names[d].1, model, names[d].1.as_deref() == Some(cert_name.as_str()));
+            w.event(format!("adv-listener {}:{}", if model { "primary" } else { "other" }, if connected { "ok" } else { "err" }));
+            if connected && !model {
+                w.violate("dialer-accepted-certificate-for-a-name-it-did-not-dial", key.clone(), format!("dialer with primary {:?} (alternate {:?}) connected to a listener presenting a certificate for {cert_name:?}", names[d].0, names[d].1));
+            }
+            if !connected && model && !lossy {
+                w.violate("same-network-refused", key, format!("dialer {:?} refused a listener with a certificate for its primary name: {:?}", names[d].0, res.as_ref().map(|r| r.as_ref().map_err(|e| format!("{e:#}")))));
+            }
+            if let Ok(Ok(p)) = &res {
+                let _ = nodes[d].net.disconnect(*p);
+            }
+            srv.abort();
+            retired_l.push(l2);
+            sleep_ms(50).await;
+        }
         if names[0].0 != names[1].0 || names[0].1.is_some() || names[1].1.is_some() { w.mark_overlap(); }
         w.sample("names", json!(samples));
         let out = w.finish();
         drop(retired);
+        drop(retired_l);
         drop((nodes, lst));
         out
     })
